@@ -240,6 +240,7 @@ def alt_case(spec, hygiene_only=False):
                        sample={'command': 'callAltTranslation', 'peptides': len(outset)})
             return res
         flags_on = orc.Flags(sect=sect, w2f=w2f)
+        flags_on.strict_end_nf = True     # the open 3' end of an mRNA_end_NF transcript is not a peptide C-terminus
         flags_off = orc.Flags()
         must, may = set(), set()
         per_tx = {}
